@@ -79,6 +79,7 @@ class World:
         # stored mode (C17): every clone is committed to a mini-ZODB connection and swept from its cache just
         # before the fault driver is armed, so the probe starts on ghosts and the allocations made while nodes
         # are loaded *inside* the operation are part of the enumerated fault space
+        self.census = cfg.get('census', True)    # count live node objects after every injection (observation only)
         self.stored = bool(cfg.get('stored'))
         self.conn = None
         self.stored_fallback = 0
@@ -411,6 +412,7 @@ def _plan(w, t, op, model):
         else:
             target = leafk
         from BTrees.Interfaces import BTreesConflictError
+        p.target_is_new = True          # the merge works on states; the clone is not involved
 
         def call():
             try:
@@ -591,7 +593,7 @@ def _run_probe(w, build, op, n, ctx, desc, fault):
         if bad:
             ctx.mismatch('%s (fault %d): after destroying every container references remain: %s'
                          % (desc, n, bad[:4]), dict(sig, what='refcount-end', leak=True), recoverable=False)
-        if not bad:
+        if not bad and w.census:
             nodes1 = w.live_nodes()
             if nodes1 != nodes0:
                 gc.collect()
@@ -703,6 +705,26 @@ def _followup(w, t, now, ctx, desc, sig):
         raise
     except (AssertionError, walker.WalkError, KeyError, TypeError, ValueError, RuntimeError, SystemError) as e:
         raise Violation('%s: follow-up workload failed: %r' % (desc, e), dict(sig, what='followup'))
+
+
+def merge_enum_cases(cfg, universe=3, chunk=48):
+    """Bounded-exhaustive conflict-merge probes for one configuration: EVERY triple (original, committed, new) of
+    subsets of a small key universe (mappings: with and without a value change on the new side), as leaf states and -
+    for tree kinds - wrapped as one-leaf tree states.  Cases of `chunk` probes each; the fault index space of every
+    probe is then enumerated by run_case as usual."""
+    U = list(range(universe))
+    subsets = [[U[i] for i in range(universe) if m >> i & 1] for m in range(1 << universe)]
+    is_map = F.is_map(cfg['kind'])
+    forms = ['leaf', 'tree'] if F.is_tree(cfg['kind']) else ['leaf']
+    probes = []
+    for old in subsets:
+        for com in subsets:
+            for new in subsets:
+                for bump in ((0, 1) if is_map else (0,)):
+                    probes.append(['merge', old, com, new, forms[(len(old) + len(com) + len(new) + bump) % len(forms)], bump])
+    cfg = dict(cfg, census=False)
+    for i in range(0, len(probes), chunk):
+        yield {'cfg': cfg, 'build': [], 'probes': probes[i:i + chunk]}
 
 
 # ----------------------------------------------------------------------------- one case
